@@ -1,10 +1,10 @@
 package checks
 
 import (
-	"strings"
 	"bytes"
 	"context"
 	"fmt"
+	"strings"
 	"testing"
 
 	"github.com/ipld/go-ipld-prime/datamodel"
